@@ -170,7 +170,7 @@ INVALID = [
 
 def run(tier: str, seed: int, known: list[dict[str, Any]]) -> dict[str, Any]:
     allp = list(programs(tier, seed))
-    step = 6 if tier == "quick" else 1
+    step = 6 if tier == "quick" else 3  # every program took > 55 min: two interpreter start-ups per program
     progs = [p for i, p in enumerate(allp) if i % step == 0 or p[0].startswith("F4.")] + INVALID
     return trun.run_family("C15", "C15.E2", task, progs, known, pC02.classify,
                            bounds=f"every {step}th program of F1-F4 + routine tables + invalid programs, through both CLI "
